@@ -124,6 +124,15 @@ pub fn run(ctx: &Ctx) -> Report {
                             json!({"source": p.src, "function": f.name, "arguments": argw}),
                             json!({"outcomes": table, "deviating_setting": settings[k].0, "attribution": why}),
                         );
+                    } else if comp::cast_check_removed(&comp::eval(&progs[k].pre, &data), &comp::eval(&progs[k].post, &data)) {
+                        rep.count("known:optimiser-cancels-data-cast-check");
+                        comp::fail_shared(
+                            &mut rep,
+                            &format!("c14:{}", comp::CAST_KEY_SUFFIX),
+                            "under some settings the optimiser cancels <x>Data(un<X>Data d), removing the shape check of an `expect` (the traced check of the verbose builds is not cancelled); unoptimised programs agree under all 9 settings",
+                            json!({"source": p.src, "function": f.name, "arguments": argw}),
+                            json!({"outcomes": table, "deviating_setting": settings[k].0, "attribution": why}),
+                        );
                     } else {
                         rep.fail(
                             &format!("{}:optimiser-differs-by-tracing", key),
